@@ -395,6 +395,21 @@ func genQuery(r *rand.Rand, d *dataset) *querySpec {
 		q.Cols = []string{"fi", "ff", "fs"}[:1+r.IntN(3)]
 		q.Limit = 1 + r.IntN(8)
 		q.Offset = r.IntN(6)
+		if r.IntN(2) == 0 {
+			// an offset that reaches past the first group(s): LIMIT/OFFSET count across the
+			// groups, and several small groups can share one chunk
+			rows := 0
+			for _, part := range d.Parts {
+				for _, p := range part {
+					if p.Mst == q.Mst {
+						rows++
+					}
+				}
+			}
+			if rows > 1 {
+				q.Offset = r.IntN(rows)
+			}
+		}
 		return q
 	}
 	// plain selection
@@ -507,6 +522,43 @@ func genPageProbe(r *rand.Rand, d *dataset, i int) *querySpec {
 	if r.IntN(4) == 0 {
 		q.Lo = &bound{d.TLo, true}
 		q.Hi = &bound{d.THi, true}
+	}
+	return q
+}
+
+// genGroupedPageProbe: a plain selection GROUP BY tags with LIMIT and an OFFSET drawn over the
+// whole answer: LIMIT/OFFSET count across the groups, and with a large chunk size several
+// small groups share one chunk while with inner chunk sizes 1 and 2 every chunk holds rows of
+// one group - the cells must agree (judged cell against cell, like every grouped-limit query).
+func genGroupedPageProbe(r *rand.Rand, d *dataset, i int) *querySpec {
+	q := &querySpec{Mst: d.U.Msts[i%len(d.U.Msts)], Meta: "grouped-limit"}
+	switch i % 3 {
+	case 0:
+		q.GroupStar = true
+	case 1:
+		q.GroupTags = []string{"host"}
+	default:
+		q.GroupTags = []string{"host", "region"}
+	}
+	q.Cols = []string{"fi", "ff", "fs"}[:1+r.IntN(3)]
+	rows := 0
+	for _, part := range d.Parts {
+		for _, p := range part {
+			if p.Mst == q.Mst {
+				rows++
+			}
+		}
+	}
+	q.Limit = 1 + r.IntN(6)
+	if rows > 1 {
+		q.Offset = r.IntN(rows)
+	}
+	if i%2 == 0 {
+		// a narrow time range: few rows per group, so many groups fit into one chunk
+		t := d.Times[r.IntN(len(d.Times))]
+		q.Lo = &bound{t, true}
+		q.Hi = &bound{t + int64(2+r.IntN(6))*sec, true}
+		q.Offset = r.IntN(12)
 	}
 	return q
 }
